@@ -686,7 +686,48 @@ func fixedVersionList() []string {
 		"1234567890.12.34", "0.5.12345678901", "99999999999.0.0", "9999999999999999", "0.5.12-abcdefghi", "1.0.0-0.0.0.0.0.0",
 		"\xff\xff\xff\xff", "0.5.\xff", "1.0.\x80",
 		"0.5.12+build", "0.5.12+1", "1.0.0+x", "0.5.9+meta.1", "0.5.12+", "0.5.12+a+b")
+	vs = append(vs, aliasVersions()...)
 	return vs
+}
+
+// aliasVersions: strings that are different versions but collapse onto a
+// compatible one if the three numbers are ever packed into one integer, or
+// truncated to a machine width, on the way to the comparison: a component
+// grown by 2^k, and the same packed value spelled with a carry moved between
+// components, for binary and decimal radices.
+func aliasVersions() []string {
+	seen := map[string]bool{}
+	var out []string
+	add := func(M, m, p uint64) {
+		s := fmt.Sprintf("%d.%d.%d", M, m, p)
+		if len(s) <= 16 && !seen[s] && versionClass(s) == "reject" {
+			seen[s] = true
+			out = append(out, s)
+		}
+	}
+	for _, c := range compatVersions {
+		var M, m, p uint64
+		fmt.Sscanf(c, "%d.%d.%d", &M, &m, &p)
+		for _, k := range []uint{8, 10, 15, 16, 20, 24, 31, 32, 40} {
+			add(M+1<<k, m, p)
+			add(M, m+1<<k, p)
+			add(M, m, p+1<<k)
+			add(M+1<<k, m+1<<k, p+1<<k)
+		}
+		for _, R := range []uint64{10, 100, 1000, 10000, 1 << 8, 1 << 10, 1 << 16, 1 << 20, 1 << 32} {
+			if m >= 1 {
+				add(M, m-1, p+R)
+			}
+			if M >= 1 {
+				add(M-1, m+R, p)
+				add(M-1, m+R-1, p+R)
+			}
+			add(0, m+M*R, p)
+			add(0, 0, (M*R+m)*R+p)
+			add(0, M*R+m-1, p+R)
+		}
+	}
+	return out
 }
 
 func withVersion(stream []byte, ver string) []byte {
@@ -883,6 +924,7 @@ func runC07(ctx *Ctx, idx int) {
 	}
 	useGuard := ctx.Tier == "thorough" || idx%4 == 0
 	st := mkOld()
+	var spare []byte
 	for ci, c := range cuts {
 		if ci&255 == 0 {
 			ctx.Beat()
@@ -894,6 +936,14 @@ func runC07(ctx *Ctx, idx int) {
 			g.ReadOnly()
 			buf = g.Buf
 			ctx.Count("cuts:guard_paged", 1)
+		} else if ci%3 == 1 {
+			// a read buffer that still holds more than was read: the bytes behind
+			// len (here: the rest of the valid stream) are not part of the input
+			if spare == nil {
+				spare = append([]byte{}, stream...)
+			}
+			buf = spare[:c]
+			ctx.Count("cuts:with_spare_capacity", 1)
 		} else {
 			buf = append([]byte{}, stream[:c]...)
 		}
@@ -1148,11 +1198,19 @@ func runC20(ctx *Ctx, idx int) {
 		if (idx+pass)%2 == 0 {
 			_, err, pv, stack = buildTrie(enc, inKeys, inVals, opt)
 		} else {
-			optSlice := []trie.Opt{opt, {}}
+			// ... a window of a larger table of presets: what lies behind the
+			// window (within its capacity) is the caller's as well
+			sentinel := trie.Opt{DedupValue: trie.Bool(false), InnerPrefix: trie.Bool(true), LeafPrefix: trie.Bool(true), Complete: trie.Bool(true)}
+			table := []trie.Opt{sentinel, opt, sentinel, sentinel}
+			optSlice := table[1:2]
+			if idx%4 >= 2 {
+				optSlice = table[1:2:2]
+			}
 			pv, stack = try(func() { _, err = trie.NewSlimTrie(enc, inKeys, inVals, optSlice...) })
-			if optSlice[0] != optSnap || optSlice[1] != (trie.Opt{}) {
-				viol("option-slice-modified", map[string]interface{}{"input_valid": pass == 0,
-					"before": fmt.Sprintf("%+v", optSnap), "after": fmt.Sprintf("%+v", optSlice[0])})
+			if table[1] != optSnap || table[0] != sentinel || table[2] != sentinel || table[3] != sentinel ||
+				!*sentinel.InnerPrefix || !*sentinel.LeafPrefix || !*sentinel.Complete || *sentinel.DedupValue {
+				viol("option-slice-modified", map[string]interface{}{"input_valid": pass == 0, "spare_capacity": cap(optSlice) > len(optSlice),
+					"before": fmt.Sprintf("%+v", optSnap), "after": fmt.Sprintf("%+v", table[1]), "neighbours_intact": table[0] == sentinel && table[2] == sentinel && table[3] == sentinel})
 			}
 			ctx.Count("builds_with_caller_owned_option_slice", 1)
 		}
@@ -1181,6 +1239,63 @@ func runC20(ctx *Ctx, idx int) {
 			}
 		}
 		ctx.Count("builds_snapshotted", 1)
+	}
+
+	// ---- 1a'. a built trie does not alias the caller's value buffers: with
+	// encoders that hand their argument through (encode.Bytes, or a user's
+	// variable-size one) the caller's bytes are what the builder is given;
+	// recycling those buffers after the build must not change any answer.
+	// Shapes: general, all equal (one stored value under de-duplication), all
+	// empty but one, a single key.
+	if n > 0 {
+		shape := idx % 4
+		bkeys := keys
+		if shape == 3 {
+			bkeys = keys[:1]
+		}
+		fixed := (idx/4)%2 == 0
+		size := r.Range(1, 9)
+		bvals := make([][]byte, len(bkeys))
+		one := r.Intn(len(bkeys))
+		for i := range bvals {
+			switch {
+			case shape == 1 && i > 0:
+				bvals[i] = append([]byte{}, bvals[0]...)
+			case shape == 2 && !fixed && i != one:
+				bvals[i] = []byte{}
+			case fixed:
+				bvals[i] = r.Bytes(size)
+			default:
+				bvals[i] = r.Bytes(r.Range(1, 12))
+			}
+		}
+		var benc encode.Encoder = encode.Bytes{Size: size}
+		if !fixed {
+			benc = PassBytes{}
+		}
+		bst, berr, bpv, bstack := buildTrie(benc, bkeys, bvals, o.Opt())
+		if bpv != nil || berr != nil {
+			viol("build-failed", map[string]interface{}{"what": "byte-slice values", "fixed_size": fixed, "shape": shape, "panic": fmt.Sprint(bpv), "error": fmt.Sprint(berr), "stack": bstack})
+		} else {
+			bqs := qs
+			if shape == 3 {
+				bqs = append([]string{bkeys[0]}, qs[:min(len(qs), 20)]...)
+			}
+			before := digestAll(bst, bqs, starts)
+			for how := 0; how < 3; how++ {
+				for _, b := range bvals {
+					scribble(b, how, r)
+				}
+				after := digestAll(bst, bqs, starts)
+				if which := before.diff(after, true); which != "" {
+					viol("value-buffer-retained", map[string]interface{}{"component": which, "fixed_size": fixed, "shape": []string{"general", "all-equal", "all-empty-but-one", "single-key"}[shape],
+						"what": "overwriting the caller's value buffers after NewSlimTrie returned changed what the trie answers", "overwrite": []string{"0x00", "0xff", "random"}[how]})
+					break
+				}
+			}
+			ctx.Count("value_buffer_overwrites_checked", 1)
+			ctx.Count(fmt.Sprintf("value_buffer_shape:%d", shape), 1)
+		}
 	}
 
 	// ---- the stream under test
@@ -1397,11 +1512,11 @@ func init() {
 	})
 	register(&CheckDef{
 		ID: "C20", Level: "exploration",
-		Rule:          "case = (key list, value list, option struct, stream layout current / 0.5.10 / three-section); monitors: (1) snapshots of keys (deep), values, the option struct and the pointees of its pointers compared after NewSlimTrie for an accepted and for a rejected (out-of-order) input, the options handed over both as a single argument and as a caller-owned slice (opts...); several Marshal results of different tries kept alive and compared with their copies after later Marshal calls; the input buffer overwritten with 0x00 / 0xff / noise after Unmarshal and the Marshal output overwritten likewise, battery digest (lookups, scans, Stat, String, Marshal) and re-Marshal bytes compared before/after; (2) guard pages: the stream lives in an mmap region between PROT_NONE pages, PROT_READ during Unmarshal and PROT_NONE afterwards while the battery runs; key bytes and the string-header array of the key slice live in PROT_READ mappings during build (also for a rejected input); faults are turned into recoverable panics; non-trivial = at least 2 keys; distinct by hash of keys, values and layout",
+		Rule:          "case = (key list, value list, option struct, stream layout current / 0.5.10 / three-section); monitors: (1) snapshots of keys (deep), values, the option struct and the pointees of its pointers compared after NewSlimTrie for an accepted and for a rejected (out-of-order) input, the options handed over both as a single argument and as a caller-owned slice (opts..., a window of a larger preset table whose neighbours must stay intact, with and without spare capacity); byte-slice values handed through by encode.Bytes or a pass-through variable-size encoder are overwritten after the build (general / all-equal / all-empty-but-one / single-key lists) and the battery digest compared; several Marshal results of different tries kept alive and compared with their copies after later Marshal calls; the input buffer overwritten with 0x00 / 0xff / noise after Unmarshal and the Marshal output overwritten likewise, battery digest (lookups, scans, Stat, String, Marshal) and re-Marshal bytes compared before/after; (2) guard pages: the stream lives in an mmap region between PROT_NONE pages, PROT_READ during Unmarshal and PROT_NONE afterwards while the battery runs; key bytes and the string-header array of the key slice live in PROT_READ mappings during build (also for a rejected input); faults are turned into recoverable panics; non-trivial = at least 2 keys; distinct by hash of keys, values and layout",
 		NumCases:      c20NumCases,
 		Run:           runC20,
 		MinNontrivial: func(tier string) int { return 200 },
-		Gates: shapeGates("builds_snapshotted", "builds_with_caller_owned_option_slice", "marshal_outputs_kept_alive", "input_overwrites_checked", "output_overwrites_checked", "guarded_streams", "guarded_key_sets", "layout:current", "layout:0.5.10", "layout:3sec",
+		Gates: shapeGates("builds_snapshotted", "builds_with_caller_owned_option_slice", "value_buffer_overwrites_checked", "value_buffer_shape:1", "value_buffer_shape:2", "value_buffer_shape:3", "marshal_outputs_kept_alive", "input_overwrites_checked", "output_overwrites_checked", "guarded_streams", "guarded_key_sets", "layout:current", "layout:0.5.10", "layout:3sec",
 			"0510_streams_with_prefixes_to_reencode"),
 		Assumptions: []string{"retaining references to key strings is not forbidden by the statement; key memory is only write-protected", "debug.SetPanicOnFault turns SIGSEGV on the guarded mappings into recoverable panics (verified in selftest)"},
 	})
